@@ -1340,6 +1340,18 @@ class Interp:
                                 decided = False
                     if decided:
                         return inner.items[best]
+        if fname in ("max", "min") and len(e.args) >= 2 and not e.keywords:
+            vals = [self.eval(a, st, fr) for a in e.args]
+            if all(isinstance(v, Poly) and v.is_const() for v in vals):
+                cs = [v.const_value() for v in vals]
+                return Poly.const(max(cs) if fname == "max" else min(cs))
+        if fname == "range" and 1 <= len(e.args) <= 2:
+            vals = [self.eval(a, st, fr) for a in e.args]
+            if all(isinstance(v, Poly) and v.is_const() and v.const_value().denominator == 1 for v in vals):
+                ints = [int(v.const_value()) for v in vals]
+                rng = range(*ints)
+                if len(rng) <= 16:
+                    return ListV([Poly.const(i) for i in rng], True, "list")
         if fname == "len" and len(e.args) == 1:
             v = self.eval(e.args[0], st, fr)
             if isinstance(v, ListV) and v.fresh:
